@@ -107,7 +107,10 @@ class C05(Check):
                     reach = G.reachable(model, roots)
                     with Session(engine) as session:
                         for ci, cname in enumerate(names):
-                            want = sum(1 for o in reach if isinstance(o, layer.clss[ci]))
+                            # joined-table inheritance follows the first bases: an object has a row in the table of its
+                            # class and of every class in its chain of first bases
+                            want = sum(1 for o in reach if type(o).__name__ in names and
+                                       (names.index(type(o).__name__) == ci or ci in MI.ancestors(model, names.index(type(o).__name__))))
                             table = layer.dao_class(layer.clss[ci]).__table__
                             got = session.execute(select(func.count()).select_from(table)).scalar()
                             if got != want:
